@@ -627,7 +627,7 @@ fn make_grep_line_regex(regex_variant: GrepLineRegex) -> Regex {
         (                        # 1. file name (colons not allowed)
             [^:|\ ]                 # try to be strict about what a file path can start with
             [^:]*                   # anything
-            [^\ ]\.[^.\ :=-]{1,10}  # extension
+            [^\ :]\.[^.\ :=-]{1,10} # extension
         )
         "
         }
@@ -635,7 +635,7 @@ fn make_grep_line_regex(regex_variant: GrepLineRegex) -> Regex {
             r"
         (                        # 1. file name (colons not allowed)
             [^:|\ ]+                # try to be strict about what a file path can start with
-            [^\ ]\.[^.\ :=-]{1,6}   # extension
+            [^\ :]\.[^.\ :=-]{1,6}  # extension
         )
         "
         }
